@@ -161,6 +161,7 @@ type FuncContract struct {
 	MayPanic bool
 	Inline   bool // callers inline the body instead of using the contract
 	Bounded  string
+	Boundary bool // the function is an API boundary of a data structure: its requires are the representation invariant, assumed at entry; callers outside the structure are listed, not verified
 	SpecName string // extern pure: name usable inside contracts
 }
 
@@ -171,6 +172,7 @@ type SpecFile struct {
 	Funcs   []*FuncContract
 	Lemmas  []*Lemma
 	Axioms  []*Lemma
+	Immut   []string // immutable T.f declarations ("T.f")
 	RawText string
 }
 
@@ -308,7 +310,7 @@ var clauseKeywords = map[string]bool{
 	"requires": true, "ensures": true, "establishes": true, "modifies": true, "loop": true, "at": true,
 	"property": true, "nopanic": true, "reveal": true, "pure": true, "func": true,
 	"ghost": true, "lemma": true, "axiom": true, "extern": true, "fresh": true,
-	"maypanic": true, "inline": true, "bounded": true, "opaque": true, "pathflag": true,
+	"maypanic": true, "inline": true, "boundary": true, "immutable": true, "bounded": true, "opaque": true, "pathflag": true,
 }
 
 func (p *parser) parseExpr(minPrec int) (Expr, error) {
@@ -725,6 +727,16 @@ func (p *parser) parseFile() (*SpecFile, error) {
 				}
 			}
 			sf.Ghosts = append(sf.Ghosts, g)
+		case "immutable":
+			// immutable T.f: field f of the package's struct type T is written only while its
+			// object is being built (checked over the whole package, see checkImmutables); calls
+			// and loops therefore leave it alone
+			p.next()
+			tn := p.next().s
+			if err := p.expectOp("."); err != nil {
+				return nil, err
+			}
+			sf.Immut = append(sf.Immut, tn+"."+p.next().s)
 		case "lemma", "axiom":
 			p.next()
 			start := p.peek().pos
@@ -849,6 +861,9 @@ func (p *parser) parseClauses(fc *FuncContract) error {
 		case "maypanic":
 			p.next()
 			fc.MayPanic = true
+		case "boundary":
+			p.next()
+			fc.Boundary = true
 		case "inline":
 			p.next()
 			fc.Inline = true
